@@ -921,8 +921,12 @@ func rpcGetEntryAndProof(ctx context.Context, li *logInfo, req *trillian.GetEntr
 	if err != nil {
 		return nil, li.toHTTPStatus(err), fmt.Errorf("backend GetEntryAndProof request failed: %s", err)
 	}
-	if err := li.issuanceChainService.FixLogLeaf(ctx, rsp.Leaf); err != nil {
-		return nil, http.StatusInternalServerError, fmt.Errorf("failed to fix log leaf: %v", rsp)
+	// The backend answers with its root only when the requested tree does not
+	// exist (yet); the handler maps the absent leaf to a status.
+	if rsp.Leaf != nil {
+		if err := li.issuanceChainService.FixLogLeaf(ctx, rsp.Leaf); err != nil {
+			return nil, http.StatusInternalServerError, fmt.Errorf("failed to fix log leaf: %v", rsp)
+		}
 	}
 
 	return rsp, http.StatusOK, nil
